@@ -325,7 +325,7 @@ func treeMutations(file string, tree interface{}, uris []string, suffixes []stri
 
 func c14(r *hx.Run) {
 	fx.Quiet()
-	r.Rule = "six valid batch file sets (all four types; creates only; updates only; deactivates only; recover+update; 6 operations) are decoded to JSON trees; every structural mutation at every JSON path of every file (delete, duplicate, swap, null, [], {}, \"\", 0, true, foreign values, every didSuffix reference pointed at every other DID of the batch, every URI retargeted to another file / itself / missing / over-long / empty; thorough: all pairs of mutations on two different files), entries moved between lists, each operation duplicated consistently in every file that references it with the anchor count raised, count skews, every truncation of every compressed file, gzip header/trailer substitutions, uncompressed content, exact size and decompression boundaries per size parameter (also with the excess in a second gzip member), the URI length boundary, an anchor-string grammar (named cases and the product of 17 count tokens x 5 separators x 9 address tokens), and every subset of failing CAS reads x alternate-source configurations (none / good / bad+good / failing formatter / bad+partial / bad; and ordered pairs of such transactions on one provider, the second compared with a fresh provider) are served to the real OperationProvider: it must return an error or operations satisfying the success invariant (count, distinct suffixes, validated deltas, parseable signed data) and never panic; the listed rejection classes must be errors. Non-trivial: distinct mutated inputs that are rejected plus those accepted with the invariant checked."
+	r.Rule = "six valid batch file sets (all four types; creates only; updates only; deactivates only; recover+update; 6 operations) are decoded to JSON trees; every structural mutation at every JSON path of every file (delete, duplicate, swap, null, [], {}, \"\", 0, true, foreign values, every didSuffix reference pointed at every other DID of the batch, every URI retargeted to another file / itself / missing / over-long / empty; thorough: all pairs of mutations on two different files), entries moved between lists, each operation duplicated consistently in every file that references it with the anchor count raised, count skews, every truncation of every compressed file, gzip header/trailer substitutions, uncompressed content, exact size and decompression boundaries per size parameter (also with the excess in a second gzip member, from an alternate source, and from an alternate source while the local copy is corrupt), the URI length boundary, an anchor-string grammar (named cases and the product of 17 count tokens x 5 separators x 9 address tokens), and every subset of failing CAS reads x alternate-source configurations (none / good / bad+good / failing formatter / bad+partial / bad; and ordered pairs of such transactions on one provider, the second compared with a fresh provider) are served to the real OperationProvider: it must return an error or operations satisfying the success invariant (count, distinct suffixes, validated deltas, parseable signed data) and never panic; the listed rejection classes must be errors. Non-trivial: distinct mutated inputs that are rejected plus those accepted with the invariant checked."
 	p := fx.DefaultProtocol()
 	dids := []*fx.DIDOps{fx.NewDIDOps(fx.Ed25519, fx.SHA256, "a"), fx.NewDIDOps(fx.Ed25519, fx.SHA256, "b"), fx.NewDIDOps(fx.P256, fx.SHA256, "c"),
 		fx.NewDIDOps(fx.Ed25519, fx.SHA256, "d"), fx.NewDIDOps(fx.Ed25519, fx.SHA256, "e"), fx.NewDIDOps(fx.Ed25519, fx.SHA256, "f")}
@@ -584,6 +584,26 @@ func c14(r *hx.Run) {
 				}
 				if dv == 0 && res.err != nil {
 					r.Violation("rejects-at-limit:alternate-source", caseID, fmt.Sprintf("%s: %s from alternate source rejected at its limit: %v", fs.name, f, res.err), nil)
+				}
+			}
+			// ... and when the local CAS holds a corrupt copy (truncated / garbage / empty: the read succeeds, decompression cannot)
+			// while an alternate source serves the well-formed file that is one byte over its limit: an error either way
+			for ci, corrupt := range [][]byte{content[:len(content)/2], content[:len(content)-1], {0x1f}, {}, []byte("not gzip at all")} {
+				pp := p
+				pp.MaxMemoryDecompressionFactor = 50
+				sizeParam[f](&pp, uint(L-1))
+				caseID := fmt.Sprintf("%s|corrupt-local-oversize-alt-source:%s:%d", fs.name, f, ci)
+				if !r.Want(caseID) {
+					continue
+				}
+				c, a := fs.assemble(fs.trees, nil, fs.count)
+				target := fx.Addr(content)
+				c.Data[target] = corrupt
+				c.Aliases["alt:"+target] = content
+				res := c14Read(r, caseID, pp, c, a, []string{"alt"}, txnprovider.WithSourceCASURIFormatter(func(uri, source string) (string, error) { return source + ":" + uri, nil }))
+				r.Nontrivial(caseID)
+				if res.err == nil {
+					r.Violation("accepts:oversize-file-from-alternate-source-after-corrupt-local-copy", caseID, fmt.Sprintf("%s: local copy of the %s file is corrupt, the alternate source serves %d bytes, limit %d: operations were returned", fs.name, f, L, L-1), nil)
 				}
 			}
 			// decompressed boundary: pad the JSON with trailing spaces to exactly P*F and P*F+1 bytes
